@@ -47,7 +47,8 @@ type MemConn struct {
 	dlCh     chan struct{}
 
 	// WriteErr, when non-nil, is consulted on every WriteTo; a non-nil result fails the write.
-	WriteErr func(p []byte, to net.Addr) error
+	AfterWrite func(p []byte, to net.Addr) // called after the datagram has been handed over, before WriteTo returns
+	WriteErr   func(p []byte, to net.Addr) error
 	// Drop, when non-nil, is consulted on every WriteTo; true loses the datagram silently.
 	Drop func(p []byte, to net.Addr) bool
 	// ErrGate, when non-nil, delays the moment a blocked or later ReadFrom reports that the socket was closed
@@ -180,6 +181,9 @@ func (c *MemConn) WriteTo(p []byte, to net.Addr) (int, error) {
 		case d.ch <- Pkt{append([]byte{}, p...), c.addr}:
 		default:
 		}
+	}
+	if c.AfterWrite != nil {
+		c.AfterWrite(p, to) // (a socket whose write returns late: the datagram has left already)
 	}
 
 	return len(p), nil
